@@ -39,6 +39,29 @@ pub const CORPUS: &[&str] = &[
     "x = 1",
     "def a() -> int:\n    pass\ndef b():\n    pass\ndef c() -> str:\n    pass\n",
     "s = 'a\\nb\\\\c'\nt = \"\"\"multi\nline\"\"\"\n",
+    // WIDE nodes: more than eight statements / parameters / arguments under one parent (repeated children hang in hidden
+    // repeat nodes, so their order in memory is not their order in the document)
+    "a0\na1\na2\na3\na4\na5\na6\na7\na8\na9\na10\na11\na12\na13\na14\na15\na16\na17\na18\na19\n",
+    "pass\npass\nx = 1\npass\ny = 2\npass\nz\npass\npass\nw = 3\npass\nv\n",
+    "def f(p0, p1, p2, p3, p4, p5, p6, p7, p8, p9, p10):\n    b0\n    b1\n    b2\n    b3\n    b4\n    b5\n    b6\n    b7\n    b8\n    b9\n    b10\n    return g(p0, p1, p2, p3, p4, p5, p6, p7, p8, p9)\n",
+    "import m0, m1, m2, m3, m4, m5, m6, m7, m8, m9\nq = a.b.c.d.e.f.g.h.i.j\nr = a + b + c + d + e + f + g + h + i + j\n",    "if x: pass\nprint(1)\nmatch = 3\ntype = match\nwhile y: break\n",
+    "with open(p) as f: pass\nz = a not in b\nw = a is not b\nexec(print)\n",
+    "def f():\n    return (1,\n",
+];
+
+/// sources full of ALIASED nodes (the grammar gives them another name than the rule that produced them): one-line suites
+/// (`block`), soft keywords used as identifiers, `as` patterns, `not in` / `is not`
+pub const ALIASED: &[&str] = &[
+    "if x: pass\nprint(1)\nmatch = 3\ntype = match\nwhile y: break\n",
+    "with open(p) as f: pass\nz = a not in b\nw = a is not b\nexec(print)\nfor i in j: continue\n",
+    "def f(): return print\nclass C: pass\nprint(f'{match!r:>{type}}')\n",
+];
+
+/// sources with one very wide node (many statements / arguments): for patterns whose matches are tuples of siblings
+pub const WIDE: &[&str] = &[
+    "a0\na1\na2\na3\na4\na5\na6\na7\na8\na9\na10\na11\n",
+    "s0\ns1\ns2\ns3\ns4\ns5\ns6\ns7\ns8\ns9\ns10\ns11\ns12\ns13\ns14\ns15\ns16\ns17\ns18\ns19\ns20\ns21\ns22\ns23\ns24\ns25\ns26\ns27\ns28\ns29\ns30\ns31\ns32\ns33\ns34\ns35\ns36\ns37\ns38\ns39\ns40\ns41\n",
+    "f(b0, b1, b2, b3, b4, b5, b6, b7, b8, b9, b10, b11, b12, b13, b14, b15, b16, b17, b18, b19, b20, b21, b22, b23, b24, b25, b26, b27, b28, b29, b30, b31, b32, b33, b34, b35)\n",
 ];
 
 const IDENTS: &[&str] = &["a", "b", "foo", "bar", "x1", "self", "n", "\u{3b1}\u{3b2}"];
